@@ -11,6 +11,20 @@ def run(chk):
         chk.broken_obligation("build", "harness does not build against /repo: " + blog)
         return
     m_sv.run(chk, binary, 400 if quick else 6000, "default")
+    # decoder scratch buffer, observable side: rejected slider lines leave nothing behind
+    rc, out, err, dt = harness_run(binary, ["psplit", chk.seed, 600 if quick else 20000], timeout=1200)
+    if rc != 0:
+        chk.violation("harness psplit crashed", {"stderr": err[-2000:]})
+    else:
+        for r in jsonl(out):
+            chk.count(["psplit", r["id"], r["curves"]], r["n_malformed"] >= 1)
+            chk.dist(f"psplit.malformed_lines={min(r['n_malformed'], 4)}")
+            if not r["equal"]:
+                chk.violation("hit objects differ when rejected slider lines are inserted between valid lines "
+                              "(the curve-point scratch buffer leaks across a line boundary)",
+                              {"text": r["text"], "rejected_curves": r["curves"],
+                               "without_them": r.get("clean", "")[:1500], "with_them": r.get("dirty", "")[:1500],
+                               "replay": f"vh psplit {chk.seed} (case id {r['id']}); decode `text` and the same text without the rejected lines"})
     # Miri over every unsafe block through the public API (moves, boxes, swaps, drops mid-way,
     # malformed curve lists): Stacked Borrows on every run, Tree Borrows as well in the thorough tier
     for name, flags in ([("stacked-borrows", "")] if quick else [("stacked-borrows", ""), ("tree-borrows", "-Zmiri-tree-borrows")]):
